@@ -38,6 +38,47 @@ theorem C06_agg_nulls (vs : List Val) :
   have hid : nonNull (nonNull vs) = nonNull vs := by simp [nonNull, List.filter_filter]
   cases fn <;> simp only [aggVal, hid, intsOf_nonNull] <;> exact absurd rfl hfn
 
+theorem distinctL_singletons : ∀ vs : List Val, distinctL (vs.map (fun v => [v])) = (distinctVals vs).map (fun v => [v])
+  | [] => rfl
+  | v :: vs => by
+    have ih := distinctL_singletons vs
+    have hm : ([v] ∈ vs.map (fun v => [v])) ↔ v ∈ vs := by
+      simp [List.mem_map]
+    simp only [List.map_cons, distinctL, distinctVals]
+    by_cases h : v ∈ vs
+    · rw [if_pos (hm.mpr h), if_pos h, ih]
+    · rw [if_neg (fun h' => h (hm.mp h')), if_neg h, ih, List.map_cons]
+
+/-- **count_distinct over several columns counts the distinct tuples among the rows in which *every*
+    argument is non-NULL** — an inductive characterisation over the rows of a group: nothing counts on no
+    rows; a row with a NULL in any argument is skipped; a tuple already seen is not counted again; a new
+    all-non-NULL tuple counts once; and with one argument it is the single-column count_distinct. -/
+theorem C06_count_distinct_n :
+    countDistinctTuples [] = .int 0 ∧
+    (∀ t ts, tupleNonNull t = false → countDistinctTuples (t :: ts) = countDistinctTuples ts) ∧
+    (∀ t ts, t ∈ ts → countDistinctTuples (t :: ts) = countDistinctTuples ts) ∧
+    (∀ t ts n, tupleNonNull t = true → t ∉ ts → countDistinctTuples ts = .int n →
+        countDistinctTuples (t :: ts) = .int (n + 1)) ∧
+    (∀ vs : List Val, countDistinctTuples (vs.map (fun v => [v])) = aggVal .countDistinct vs) := by
+  refine ⟨rfl, fun t ts h => ?_, fun t ts hm => ?_, fun t ts n h hm hn => ?_, fun vs => ?_⟩
+  · simp [countDistinctTuples, List.filter_cons, h]
+  · by_cases h : tupleNonNull t = true
+    · have : t ∈ ts.filter tupleNonNull := List.mem_filter.mpr ⟨hm, h⟩
+      simp [countDistinctTuples, List.filter_cons, h, distinctL, this]
+    · simp [countDistinctTuples, List.filter_cons, h]
+  · have hnm : t ∉ ts.filter tupleNonNull := fun h' => hm (List.mem_filter.mp h').1
+    simp only [countDistinctTuples, Val.int.injEq] at hn ⊢
+    simp only [List.filter_cons, h, if_true, distinctL, hnm, if_false, List.length_cons]
+    omega
+  · have hf : (vs.map (fun v => [v])).filter tupleNonNull = (nonNull vs).map (fun v => [v]) := by
+      induction vs with
+      | nil => rfl
+      | cons v vs ih =>
+        by_cases hv : v = .null
+        · subst hv; simpa [nonNull, tupleNonNull, List.filter_cons] using ih
+        · simpa [nonNull, tupleNonNull, List.filter_cons, hv] using ih
+    simp only [countDistinctTuples, aggVal, hf, distinctL_singletons, List.length_map]
+
 /-- **GROUP BY block = specification, for all tables.**  The block `GroupedData.agg` builds (GROUP BY on the
     un-aliased key expressions, select list keys ++ aggregates, the WHERE of the open block kept) evaluates
     to the specification applied to the filtered source. -/
@@ -187,6 +228,8 @@ example : (specRunG exT (exChain.take 2)).rows =
      [.null, .int 2, .int 2, .int 14, .int 7, .str "a", .int 8, .int 1, .int 16],
      [.int 4, .int 1, .int 0, .null, .null, .null, .null, .int 0, .null]] := by decide
 example : ((DF.init exT).runG exChain).eval = { cols := ["avg(c)"], rows := [[.int 2]] } := by decide
+example : countDistinctTuples [[.str "ann", .str "tea"], [.str "ann", .str "tea"], [.str "ann", .null], [.null, .str "tea"],
+    [.str "bob", .str "tea"], [.null, .null]] = .int 2 := by decide
 example : (cubeSets ["a", "b"]) = [["a", "b"], ["a"], ["b"], []] := by decide
 example : aggsWF exT.cols [("k", .col "k"), ("s", .col "s")] [("count", .agg .countStar (.lit (.int 1)))] ∧ exT.rows ≠ [] := by decide
 
